@@ -155,7 +155,9 @@ class CT:
 '''
 
 OBJ_VALUES = ["0", "1", "2", "3", "-1", "1.0", "2.5", "M.NAN", "True", "False", "None", "'a'", "'b'", "'1'", "''", "b'1'", "b'a'",
-              "(1, 2)", "[1]", "M.EQ(1)", "M.EQ(2)", "M.EQ('a')", "M.NB(1)", "M.NB(2)", "M.RZ()", "2**70", "1e300", "-0.0"]
+              "(1, 2)", "[1]", "M.EQ(1)", "M.EQ(2)", "M.EQ('a')", "M.NB(1)", "M.NB(2)", "M.RZ()", "2**70", "1e300", "-0.0",
+              # CPython digit boundaries: two-digit ints (2**30 <= |v| < 2**60) of both signs and their neighbours
+              "2**30", "2**30 + 1", "2**45", "2**59 + 7", "2**60 - 1", "2**60", "-2**30", "-2**31", "-2**45", "-2**59 - 7", "-2**60"]
 CONT_VALUES = ["(1, 2)", "[1, 'a']", "{1, 2}", "{'a': 1}", "'abc'", "b'abc'", "M.CT([1, 2])", "M.CT([1], 1)", "M.CT([1], 2)",
                "(M.NAN, 1)", "[M.EQ(1), 2]", "()", "None", "5"]
 CMP = ["<", "<=", "==", "!=", ">=", ">"]
